@@ -44,6 +44,7 @@ def queries():
     for pl in list(range(1, 11)) + [12, 14, 16]:
         qs.append(Q("split-any-pl%d" % pl, "C02_split.c", SPLIT_SRCS,
                     defs={"MODE": 1, "PL": pl, "VERIF_HCAP": 4, "VERIF_KEY4": None}, unwind=max(pl + 3, 7), instr=RH,
+                    lib_unwind_violation=True,
                     leak=True, tier="quick" if pl <= 8 else "thorough"))
     for depth in range(4):
         for dlen in range(0, 10):
